@@ -8,4 +8,6 @@ u=parse_unit(f'/verif/units/{sys.argv[1]}.vu')
 a=assemble(u)
 open(f'/verif/build/{sys.argv[1]}.rs','w').write('\n'.join(a.out.lines)+'\n')
 PY
+rc=$?; [ $rc -eq 0 ] || exit 1
+[ $? -eq 0 ] || exit 1
 cd /verif/build && verus $1.rs --multiple-errors 20 "${@:2}" 2>&1 | grep -v conda
